@@ -33,44 +33,6 @@ theorem C13_address_shape (h x : String) (p : Nat) (tr : Transport) (path : Stri
   · simp [Endpoint.toTarget, Endpoint.address, hv.1, hv.2]
   · simp [Endpoint.toBound, Endpoint.address]
 
-/-! ## plumbing -/
-
-theorem configure_ok {tasks : List Task} {res : List Props} (h : configure tasks = .ok res) :
-    ∃ bm, build [] (claims tasks) = .ok bm ∧ mapE (taskProps bm) tasks = .ok res := by
-  unfold configure at h
-  split at h
-  · cases h
-  · rename_i bm hb
-    exact ⟨bm, hb, h⟩
-
-theorem claims_sane {tasks : List Task} (hk : keysSane (claims tasks) = true) :
-    ∀ c ∈ claims tasks, sane c = true := by
-  intro c hc
-  have h1 := (List.all_eq_true.mp hk) c hc
-  obtain ⟨t, _, kv, _, rfl⟩ := mem_claims.mp hc
-  unfold claimOf at h1 ⊢
-  split
-  · rename_i ha; simp [sane, ha]
-  · rename_i ha
-    simp only [ha] at h1
-    simp only [sane]
-    simpa using h1
-
-theorem explicit_empty {s : String} (h : s.isEmpty = true) : explicit s = false := by
-  have : s = "" := by simpa using h
-  subst this
-  decide
-
-/-- From `launchOk`: the inbound channel behind an entry of the local bind map. -/
-theorem launch_entry {t : Task} (hl : launchOk t = true) {kv : String × Endpoint} (hkv : kv ∈ t.loc) :
-    ∃ c ∈ t.inbound, entryOf kv c ∧ Assoc.get t.loc c.name = some kv.2 ∧ freshFor c kv.2 = true := by
-  simp only [launchOk, Bool.and_eq_true, List.all_eq_true, List.any_eq_true, decide_eq_true_eq] at hl
-  obtain ⟨c, hc, he, hg⟩ := hl.2 kv hkv
-  refine ⟨c, hc, he, hg, ?_⟩
-  have := hl.1 c hc
-  rw [hg] at this
-  exact this
-
 /-! ## clause 1: matched targets -/
 
 /-- What IS proved, for every workflow: an outbound channel whose target is a
@@ -256,20 +218,6 @@ theorem C13_unmatched_only_if (tasks : List Task) (h : configure tasks = .error 
 
 /-! ## clause 4: global aliases -/
 
-theorem wf_claims {tasks : List Task} (hwf : WF tasks) :
-    (∀ c ∈ claims tasks, sane c = true) ∧ (∀ c ∈ claims tasks, validHost c.host = true) ∧
-    (∀ c ∈ claims tasks, rawBound c.raw = true) := by
-  refine ⟨claims_sane hwf.2, ?_, ?_⟩
-  · intro c hc
-    obtain ⟨t, ht, kv, _, rfl⟩ := mem_claims.mp hc
-    rw [claimOf_host]
-    exact (hwf.1 t ht).2.1
-  · intro c hc
-    obtain ⟨t, ht, kv, hkv, rfl⟩ := mem_claims.mp hc
-    rw [claimOf_raw]
-    obtain ⟨c', _, _, _, hf⟩ := launch_entry (hwf.1 t ht).1 hkv
-    exact freshFor_rawBound c' kv.2 hf
-
 /-- Two tasks whose local bind maps carry the same global alias with different
     endpoints (different host, port, path or transport): the configuration is
     rejected with "illegal redefinition of global channel alias" — whatever the
@@ -321,19 +269,6 @@ theorem C13_alias_equal_accepted (tasks : List Task) (hk : keysSane (claims task
       c.raw = d.raw ∧ ∃ p tr, c.raw = .ipc p tr) :
     ∃ bm, build [] (claims tasks) = .ok bm :=
   build_ok_of_equal_ipc (claims_sane hk) heq (fun _ _ _ v hv => by simp [Assoc.get] at hv)
-
-/-- `clash` finds two alias claims with one key and different target-form endpoints. -/
-theorem clash_mem {cs : List Claim} (h : clash cs = true) :
-    ∃ c ∈ cs, ∃ d ∈ cs, c.alias = true ∧ d.alias = true ∧ d.key = c.key ∧ d.target ≠ c.target := by
-  induction cs with
-  | nil => cases h
-  | cons c cs ih =>
-    simp only [clash, Bool.or_eq_true, Bool.and_eq_true, List.any_eq_true, beq_iff_eq,
-      decide_eq_true_eq] at h
-    rcases h with ⟨hc, d, hd, ⟨hda, hdk⟩, hdt⟩ | h
-    · exact ⟨c, List.mem_cons_self, d, List.mem_cons_of_mem _ hd, hc, hda, hdk, hdt⟩
-    · obtain ⟨x, hx, y, hy, r⟩ := ih h
-      exact ⟨x, List.mem_cons_of_mem _ hx, y, List.mem_cons_of_mem _ hy, r⟩
 
 /-- FULL-STRENGTH clause 4 at the level of DECLARATIONS (kept visible; FALSE of
     the code, see `C13_finding_alias_redefined_within_task`): whenever two inbound
@@ -432,43 +367,52 @@ theorem C13_model_meets_weak_spec (tasks : List Task) (hwf : WF tasks) :
     | unmatched => exact C13_unmatched_only_if tasks hcfg
     | aliasConflict => exact C13_alias_error_only_if_shared tasks hwf hcfg
 
+/-! ## the launch establishes what the theorems assume -/
+
+/-- The allocation loop of makeTaskForMesosResources (`allocLocal`: for each inbound
+    channel in order `bindMap[name] = fresh endpoint`, then `bindMap["::"+global] =
+    bindMap[name]`), fed with one endpoint of the right kind per channel, yields a
+    local bind map that satisfies `launchOk` — for any number of channels, as long
+    as channel names are unique and do not look like an alias. If moreover no two
+    channels name the same alias, every declared alias is advertised with its own
+    channel's endpoint (`aliasesAdvertised`). The correspondence run checks on
+    every case that the REAL function's output is `allocLocal` of the endpoints it
+    handed out, and `launchOk` itself. -/
+theorem C13_launch_postcondition (path host : String) (inb : List Inbound) (out : List Outbound)
+    (eps : List Endpoint)
+    (hnd : (inb.map Inbound.name).Nodup) (hna : ∀ c ∈ inb, isAlias c.name = false)
+    (hlen : eps.length = inb.length) (hfresh : ∀ p ∈ inb.zip eps, freshFor p.1 p.2 = true) :
+    let t : Task := { path := path, host := host, inbound := inb, outbound := out, loc := allocLocal [] inb eps }
+    launchOk t = true ∧
+    ((∀ c ∈ inb, ∀ c' ∈ inb, c.global.isEmpty = false → c'.global.isEmpty = false →
+        aliasKey c.global = aliasKey c'.global → c.name = c'.name) → aliasesAdvertised t) := by
+  intro t
+  constructor
+  · simp only [launchOk, Bool.and_eq_true, List.all_eq_true, List.any_eq_true, decide_eq_true_eq]
+    constructor
+    · intro c hc
+      obtain ⟨e, he⟩ := exists_zip_of_mem hlen hc
+      show (match Assoc.get (allocLocal [] inb eps) c.name with | some e => freshFor c e | none => false) = true
+      rw [alloc_name hnd hna he]
+      exact hfresh _ he
+    · intro kv hkv
+      rcases alloc_mem hkv with h | ⟨p, hp, hpe⟩
+      · cases h
+      · have hc : p.1 ∈ inb := (List.of_mem_zip hp).1
+        have hget : Assoc.get (allocLocal [] inb eps) p.1.name = some p.2 := alloc_name hnd hna hp
+        rcases hpe with rfl | ⟨hg, rfl⟩
+        · exact ⟨p.1, hc, Or.inl rfl, hget⟩
+        · exact ⟨p.1, hc, Or.inr ⟨hg, rfl⟩, hget⟩
+  · intro hal c hc hg e he
+    obtain ⟨e', he'⟩ := exists_zip_of_mem hlen hc
+    have h1 : Assoc.get (allocLocal [] inb eps) c.name = some e' := alloc_name hnd hna he'
+    have : e = e' := by
+      have he2 : Assoc.get (allocLocal [] inb eps) c.name = some e := he
+      rw [h1] at he2; exact (Option.some.inj he2).symm
+    subst this
+    exact ⟨(aliasKey c.global, e), mem_of_get (alloc_alias hnd hna hal he' hg), rfl, rfl⟩
+
 /-! ## role-level declarations override template-level ones, whole -/
-
-/-- First declaration with a given name. -/
-def findName {α} (name : α → String) (n : String) (l : List α) : Option α := l.find? fun c => name c == n
-
-theorem mergeBy_find {α} (name : α → String) (n : String) (hp lp : List α) :
-    findName name n (mergeBy name hp lp) = (findName name n hp).or (findName name n lp) := by
-  unfold mergeBy
-  induction lp generalizing hp with
-  | nil => simp [findName]
-  | cons v lp ih =>
-    simp only [List.foldl_cons]
-    split
-    · rename_i hany
-      rw [ih]
-      cases hf : findName name n hp with
-      | some x => simp
-      | none =>
-        simp only [Option.none_or]
-        -- v's name is taken in hp but n is not found there, so v is not named n
-        have hvn : (name v == n) = false := by
-          cases hvn : name v == n with
-          | false => rfl
-          | true =>
-            exfalso
-            obtain ⟨c, hc, hcn⟩ := List.any_eq_true.mp hany
-            have : name c = n := by
-              rw [beq_iff_eq] at hcn hvn; rw [hcn, hvn]
-            have hnone := List.find?_eq_none.mp hf c hc
-            simp [this] at hnone
-        simp [findName, hvn]
-    · rename_i hany
-      rw [ih]
-      simp only [findName, List.find?_append]
-      cases hf : List.find? (fun c => name c == n) hp with
-      | some x => simp
-      | none => cases hvn : name v == n <;> simp [hvn]
 
 /-- The declaration in force for channel `n` of a task is the first one found
     going from the task role up through its ancestors, and only if no role
